@@ -40,11 +40,27 @@ func (m wkbMode) order() binary.ByteOrder {
 }
 
 func (m wkbMode) opts() []wkbcommon.WKBOption {
+	// every other call passes its option in one slice the caller keeps and rewrites
+	// from call to call (the same backing array, another option in it)
+	c03OptCalls++
+	if c03OptCalls%2 == 0 {
+		if m.o.NaNEmptyPoint && !m.o.EWKB {
+			c03OptSlot[0] = wkbcommon.WKBOptionEmptyPointHandling(wkbcommon.EmptyPointHandlingNaN)
+		} else {
+			c03OptSlot[0] = wkbcommon.WKBOptionEmptyPointHandling(wkbcommon.EmptyPointHandlingError) // the default, spelled out
+		}
+		return c03OptSlot[:]
+	}
 	if m.o.NaNEmptyPoint && !m.o.EWKB {
 		return []wkbcommon.WKBOption{wkbcommon.WKBOptionEmptyPointHandling(wkbcommon.EmptyPointHandlingNaN)}
 	}
 	return nil
 }
+
+var (
+	c03OptSlot  [1]wkbcommon.WKBOption
+	c03OptCalls int
+)
 
 func (m wkbMode) marshal(t geom.T) ([]byte, error) {
 	if m.o.EWKB {
@@ -223,6 +239,18 @@ func (f *fullThenFailWriter) Write(p []byte) (int, error) {
 	if f.calls-1 == f.k {
 		f.failed = true
 		return len(p), errInjected
+	}
+	return len(p), nil
+}
+
+// transientFailWriter refuses its k-th Write once (nothing taken, the writer's
+// error) and takes every later one: a deadline that expired and was extended.
+type transientFailWriter struct{ k, calls int }
+
+func (f *transientFailWriter) Write(p []byte) (int, error) {
+	f.calls++
+	if f.calls-1 == f.k {
+		return 0, errInjected
 	}
 	return len(p), nil
 }
@@ -682,7 +710,7 @@ func c03CodecOn(c *fw.Ctx, g *model.G, m wkbMode) {
 		if c.Guard("panic", func() { err = m.write(cw, t) }) {
 			return
 		}
-		ks := []int{cw.calls - 1, 0, cw.calls / 2}
+		ks := []int{cw.calls - 1, 0, cw.calls / 2, cw.calls - 2, r.Intn(cw.calls), r.Intn(cw.calls)}
 		if cw.calls <= 12 {
 			ks = ks[:0]
 			for k := 0; k < cw.calls; k++ {
@@ -701,6 +729,16 @@ func c03CodecOn(c *fw.Ctx, g *model.G, m wkbMode) {
 			c.Count("writer_failures_reported_with_a_full_count")
 			if err == nil || !errors.Is(err, errInjected) {
 				c.Fail("writer-error-lost", "%s: Write returned %v although the writer reported its error (together with a full byte count) on call %d of %d", m.name, err, k+1, cw.calls)
+				return
+			}
+			tw := &transientFailWriter{k: k}
+			if c.Guard("panic", func() { err = m.write(tw, t) }) {
+				return
+			}
+			c.Eval(1)
+			c.Count("writer_failures_that_do_not_last")
+			if err == nil || !errors.Is(err, errInjected) {
+				c.Fail("writer-error-lost", "%s: Write returned %v although the writer refused call %d of %d (it took the later ones)", m.name, err, k+1, cw.calls)
 				return
 			}
 		}
